@@ -1,3 +1,4 @@
+import D2P.Proofs.Hyperlink
 import D2P.Proofs.Unstyled
 /-!
 # The no-tags invariant through the cell surgery and the whole walk (html off)
@@ -273,9 +274,8 @@ theorem openStep_unst (cfg : PartCfg) (hc : cfg.html = false) (s s' : DC) (x : X
       · have := pure_ok ht; subst this; exact h) he
   · exact withTrue_unst _ s' r (fun t ht => noteLabel_unst s t x _ h ht) he
   · exact withTrue_unst _ s' r (fun t ht => noteLabel_unst s t x _ h ht) he
-  · exact withFalse_unst _ s' r (fun t ht => by
-      obtain ⟨tx, _, ht⟩ := bind_ok ht; obtain ⟨rn, _, ht⟩ := bind_ok ht
-      exact insertNewRun_unst s t _ h ht) he
+  · exact withFalse_unst _ s' r (fun t ht => openHyperlink_preserves cfg (fun a id b ha hb => startRange_unst a b id ha hb)
+      (fun a tx b ha hb => insertNewRun_unst a b tx ha (by rw [hc] at hb; exact hb)) (fun a id b ha hb => endRange_unst a b id ha hb) s t x roots h ht) he
   · exact withTrue_unst _ s' r (fun t ht => by obtain ⟨tx, _, ht⟩ := bind_ok ht; exact insertNewRun_unst s t _ h ht) he
   · exact withTrue_unst _ s' r (fun t ht => by obtain ⟨tx, _, ht⟩ := bind_ok ht; exact insertNewRun_unst s t _ h ht) he
   · exact withTrue_unst _ s' r (fun t ht => by obtain ⟨tx, _, ht⟩ := bind_ok ht; exact insertNewRun_unst s t _ h ht) he
